@@ -46,6 +46,18 @@ theorem generic_too_deep (B : Nat) {k : Nat} {v : List GTok} (rest : List GTok) 
     (hk : k ≠ 0) (hB : B < 1 + k) : gDecode B (v ++ rest) = .error .depth :=
   gval_err B hv .val [] rest (Or.inl rfl) hk (by simpa [Nat.add_comm] using hB)
 
+/-- UNIQUE SPLIT: the grammar is prefix-free - a token stream has at most one decomposition into one
+    value and a rest, so "the value the machine consumed" (`generic_sound`) is THE value at the front of
+    the input and the reported end offset is determined by the input alone (no budget hypothesis) -/
+theorem generic_value_unique {k k' : Nat} {v v' rest rest' : List GTok} (hv : TVal k v) (hv' : TVal k' v')
+    (h : v ++ rest = v' ++ rest') : v = v' ∧ rest = rest' := by
+  have h1 := generic_complete (1 + k + k') rest hv (Or.inr (by omega))
+  have h2 := generic_complete (1 + k + k') rest' hv' (Or.inr (by omega))
+  rw [h, h2] at h1
+  have hr : rest' = rest := by injection h1
+  subst hr
+  exact ⟨List.append_cancel_right h, rfl⟩
+
 /-- non-vacuity: `[ s , { str : [ ] } ]` needs 3 slots above the first -/
 example : gDecode 4096 [.lb, .scalar, .comma, .lc, .str, .colon, .lb, .rb, .rc, .rb] = .ok [] := rfl
 example : gDecode 3 [.lb, .scalar, .comma, .lc, .str, .colon, .lb, .rb, .rc, .rb] = .error .depth := rfl
